@@ -2037,10 +2037,7 @@ class PseudoNetCDFFile(PseudoNetCDFSelfReg, object):
             # if anyisarray and isarray[dk]: continue
             dv = self.dimensions[dk]
             if dk in dimslices:
-                if dk in self.variables:
-                    dvar = self.variables[dk]
-                else:
-                    dvar = np.arange(len(dv))
+                dvar = np.arange(len(dv))
                 newdl = dvar[dimslices[dk]].size
             else:
                 newdl = len(dv)
